@@ -5,6 +5,7 @@ import (
 	"encoding/json"
 	"fmt"
 	"math/rand/v2"
+	"strings"
 	"sync"
 	"sync/atomic"
 	"time"
@@ -923,10 +924,17 @@ func (e *kvElection) StopWithContext(ctx context.Context, opts StopOptions) erro
 // recordHeldByOther reports whether a fresh read shows a leadership record that is
 // not this instance's current one. The wait in StopWithContext can outlast the TTL
 // (a slow callback, a hung store call): by then the record may belong to a
-// successor, and Delete is not revision-checked. When the read fails the answer is
-// false and the caller deletes as before.
+// successor, and Delete is not revision-checked. When the read finds no record
+// there is nothing to delete and the answer is true; when it fails otherwise the
+// answer is false and the caller deletes as before.
 func (e *kvElection) recordHeldByOther() bool {
 	entry, err := e.kv.Get(e.key)
+	if err != nil && strings.Contains(strings.ToLower(err.Error()), "key not found") {
+		// The record is gone already (expired, or deleted): there is nothing of ours
+		// left to delete, and a Delete issued now could only remove the record of a
+		// successor that is elected in the meantime.
+		return true
+	}
 	if err != nil || entry == nil {
 		return false
 	}
